@@ -41,6 +41,7 @@ RULE = (
     "instant, right after the export and again after all later exports into the same folder. distinct = (session kind, exported contribution classes, fps bucket, overwrite, pre-existing folder, repeated "
     "export); non-trivial = at least one .vtu compared with >= 2 frames"
 )
+RULE += " One run in 53 exports a long animation (1001-1150 frames of one contribution, every instant a frame); file names include ones that are prefixes of each other (a, a_0) and ones with brackets."
 RULE += " Rigid bodies may carry a visual mesh (box, offset / rotated in the body frame; mesh export and base export); time origins are arbitrary (t0 up to 1e5); fault F5b: a contribution whose export raises at its k-th frame, after which later exports on the same Export object must be unaffected."
 COMPONENTS = {
     "real": ["cardillo.visualization.Export / make_ugrid", "export() of PointMass, RigidBody, Frame, Force, B_Force, Moment, B_Moment, TwoPointInteraction, Spring, Sphere2Plane, Cosserat rods", "System.export", "VTK writer and reader, real files"],
@@ -48,7 +49,7 @@ COMPONENTS = {
     "model": ["independent geometry formulas of the harness (rigid-body kinematics, frame motion, force application points, contact points); rods re-evaluated through their public r_OP / A_IB"],
 }
 ASSUMPTIONS = ["points are stored as Float32 by vtkPoints: 1e-6 relative; data arrays 1e-9 relative", "which instants are exported (fps sub-sampling) is the exporter's choice; they must be instants of the solution, in order"]
-REQUIRED_PROBES = {"quick": ["vtu_compared", "preexisting_folder", "exported_twice", "system_export", "rod_exported", "moving_frame_exported", "contact_exported"]}
+REQUIRED_PROBES = {"quick": ["vtu_compared", "more_than_1000_frames", "preexisting_folder", "exported_twice", "system_export", "rod_exported", "moving_frame_exported", "contact_exported"]}
 
 
 def gen(rng, tier, index):
@@ -117,7 +118,7 @@ def gen(rng, tier, index):
         elif x < 0.4:
             ops.append({"what": "list:bodies_same_kind"})
         else:
-            ops.append({"what": targets[int(rng.integers(len(targets)))], "file_name": None if rng.random() < 0.6 else str(rng.choice(["a", "b", "v1.2", "ball_r0.5"]))})
+            ops.append({"what": targets[int(rng.integers(len(targets)))], "file_name": None if rng.random() < 0.6 else str(rng.choice(["a", "b", "v1.2", "ball_r0.5", "a_0", "ball[1]"]))})
             w = ops[-1]["what"]
             if w.startswith("body") and scene["bodies"][int(w[4:])].get("mesh") and rng.random() < 0.3:
                 ops[-1]["base_export"] = True  # the point-like export of the underlying rigid body instead of its mesh
@@ -133,6 +134,12 @@ def gen(rng, tier, index):
         scene["t0"] = float(np.round(rng.uniform(1.0, 60.0), 3))
     elif x < 0.4:
         scene["t0"] = float(rng.choice([1000.0, 20000.0, 123456.0]) + np.round(rng.uniform(0, 1), 2))
+    if index % 53 == 11:
+        # a long animation: more than a thousand exported frames of one contribution (every instant is a frame)
+        plan["solver"]["steps"] = 1001 + index % 150
+        plan["fps"] = 1.0e4
+        plan["ops"] = [{"what": "body0", "file_name": None}]
+        plan["long"] = True
     return plan
 
 
@@ -342,6 +349,8 @@ def execute(plan, out, log):
                     raise Discard("run_failed")
                 sol = R.sol
             out["steps"] = len(sol.t) - 1
+            if plan.get("long"):
+                out["probes"]["more_than_1000_frames"] += 1
             folder = "vtk_out"
             if plan["preexisting"]:
                 os.makedirs(os.path.join(tmp, folder))
